@@ -140,6 +140,7 @@ constexpr std::uint64_t kFreed = 0xDEADDEADDEADDEADULL;
 #if SIM_RACE
 namespace hb {
 void ClearRange(std::uintptr_t a, std::size_t n) noexcept;
+void FreeRange(std::uintptr_t a, std::size_t n, const void* pc) noexcept;
 }
 #endif
 
@@ -165,7 +166,11 @@ static void LedgerFree(void* p) noexcept {
     --gLive;
   }
 #if SIM_RACE
-  hb::ClearRange(reinterpret_cast<std::uintptr_t>(p), h->size);
+  if (gQuarantine) {
+    hb::FreeRange(reinterpret_cast<std::uintptr_t>(p), h->size, __builtin_return_address(0));
+  } else {
+    hb::ClearRange(reinterpret_cast<std::uintptr_t>(p), h->size);
+  }
 #endif
   h->epoch = kFreed;
   if (gQuarantine) {
